@@ -14,6 +14,7 @@ resolver, rules, construct keys) sees only the canonical tree; `Unit.source` sta
 '''
 import ast
 import copy
+import os
 
 
 def _own_walk(fn):
@@ -199,8 +200,128 @@ def _unnegate(tree):
     return tree
 
 
+def _reaug(tree):
+    '''N3: x = x OP e  ->  x OP= e   (plain names and attribute targets)'''
+    for parent in ast.walk(tree):
+        for fld in ('body', 'orelse', 'finalbody'):
+            body = getattr(parent, fld, None)
+            if not (isinstance(body, list) and body and isinstance(body[0], ast.stmt)):
+                continue
+            for k, st in enumerate(body):
+                if isinstance(st, ast.Assign) and len(st.targets) == 1 and isinstance(st.targets[0], (ast.Name, ast.Attribute)) \
+                        and isinstance(st.value, ast.BinOp) and isinstance(st.value.left, (ast.Name, ast.Attribute)) \
+                        and ast.unparse(st.value.left) == ast.unparse(st.targets[0]):
+                    body[k] = ast.copy_location(ast.AugAssign(target=st.targets[0], op=st.value.op, value=st.value.right), st)
+    return tree
+
+
+def _self_attrs(fn):
+    return {x.attr for x in ast.walk(fn) if isinstance(x, ast.Attribute) and isinstance(x.value, ast.Name) and x.value.id == 'self'}
+
+
+def _pure_chain(e):
+    '''self.a.b.c  (attribute chain rooted at the name self)'''
+    n = 0
+    while isinstance(e, ast.Attribute):
+        e = e.value
+        n += 1
+    return n >= 1 and isinstance(e, ast.Name) and e.id == 'self'
+
+
+def _inline_aliases(fn, rebound=None):
+    '''N4: a = self.p.q at the top level of the function body, a bound exactly once, self.p.q never stored to in the
+    function  ->  every read of a becomes self.p.q and the binding disappears.'''
+    if not (fn.args.args and fn.args.args[0].arg == 'self'):
+        if not any(isinstance(x, ast.Name) and x.id == 'self' for x in ast.walk(fn)):
+            return
+    for _round in range(4):
+        loads, stores, declared = _name_counts(fn)
+        stored_paths = set()
+        for x in ast.walk(fn):
+            if isinstance(x, ast.Attribute) and isinstance(x.ctx, (ast.Store, ast.Del)):
+                stored_paths.add(ast.unparse(x))
+        done = False
+        for k, st in enumerate(list(fn.body)):
+            if not (isinstance(st, ast.Assign) and len(st.targets) == 1 and isinstance(st.targets[0], ast.Name) and _pure_chain(st.value)):
+                continue
+            t = st.targets[0].id
+            path = ast.unparse(st.value)
+            if t in declared or stores.get(t, 0) != 1 or loads.get(t, 0) == 0:
+                continue
+            if any(sp == path or path.startswith(sp + '.') for sp in stored_paths):
+                continue
+            # an alias denotes an object or a bound method: the name must be used as a callee, as the base of an attribute /
+            # subscript, or be iterated somewhere - a name only used as a value is a snapshot of that value, not an alias
+            obj = False
+            for x in ast.walk(fn):
+                if isinstance(x, ast.Call) and isinstance(x.func, ast.Name) and x.func.id == t:
+                    obj = True
+                elif isinstance(x, (ast.Attribute, ast.Subscript)) and isinstance(x.value, ast.Name) and x.value.id == t:
+                    obj = True
+                elif isinstance(x, (ast.For, ast.AsyncFor, ast.comprehension)) and isinstance(x.iter, ast.Name) and x.iter.id == t:
+                    obj = True
+                elif isinstance(x, ast.Call) and isinstance(x.func, ast.Name) and x.func.id in ('set', 'len', 'sorted', 'list') \
+                        and any(isinstance(a_, ast.Name) and a_.id == t for a_ in x.args):
+                    obj = True
+            if not obj:
+                # a value alias is still exact when the field is configuration: assigned in __init__ only, never re-bound
+                first = path.split('.')[1]
+                if rebound is None or first in rebound or path.count('.') != 1:
+                    continue
+            # the alias must not be re-bound inside nested scopes either (handled by the scope-aware counts) and must not be
+            # the target of an augmented assignment (counted as a store)
+            expr = st.value
+
+            class R(ast.NodeTransformer):
+                def visit_Name(self, n):
+                    if n.id == t and isinstance(n.ctx, ast.Load):
+                        return ast.copy_location(copy.deepcopy(expr), n)
+                    return n
+
+                def _scope(self, n):
+                    if n is not fn and t in _bound_in(n):
+                        return n
+                    return self.generic_visit(n)
+                visit_FunctionDef = visit_AsyncFunctionDef = visit_Lambda = _scope
+            fn.body.remove(st)
+            R().generic_visit(fn)
+            done = True
+            break
+        if not done:
+            break
+
+
 def normalize(tree):
     _unnegate(tree)
+    _reaug(tree)
+    for cls in [c for c in ast.walk(tree) if isinstance(c, ast.ClassDef)]:
+        # fields (re)bound outside __init__: everything else is configuration fixed at construction
+        rebound = set()
+        for m in [x for x in cls.body if isinstance(x, (ast.FunctionDef, ast.AsyncFunctionDef))]:
+            if m.name == '__init__':
+                continue
+            for x in ast.walk(m):
+                if isinstance(x, ast.Attribute) and isinstance(x.ctx, (ast.Store, ast.Del)) and isinstance(x.value, ast.Name) and x.value.id == 'self':
+                    rebound.add(x.attr)
+        # fields bound from outside (obj.field = ...) cannot be seen here: only classes that assign the field in __init__ count
+        init = [x for x in cls.body if isinstance(x, ast.FunctionDef) and x.name == '__init__']
+        inited = {x.attr for m in init for x in ast.walk(m) if isinstance(x, ast.Attribute) and isinstance(x.ctx, ast.Store)
+                  and isinstance(x.value, ast.Name) and x.value.id == 'self'}
+        # a cachedproperty is computed once and then fixed
+        inited |= {x.name for x in cls.body if isinstance(x, ast.FunctionDef)
+                   and any('cachedproperty' in ast.unparse(d_) or 'cached_property' in ast.unparse(d_) for d_ in x.decorator_list)}
+        for m in ast.walk(cls):
+            if isinstance(m, (ast.FunctionDef, ast.AsyncFunctionDef)):
+                m._verif_rebound = rebound | {'*'}      # marker consumed below
+                m._verif_inited = inited
+    for n in ast.walk(tree):
+        if isinstance(n, (ast.FunctionDef, ast.AsyncFunctionDef)) and not os.environ.get('VERIF_NO_N4'):
+            rb = getattr(n, '_verif_rebound', None)
+            if rb is not None:
+                # treat every field not initialised in __init__ as re-bindable
+                inited = getattr(n, '_verif_inited', set())
+                rb = set(rb) | {a for a in _self_attrs(n) if a not in inited}
+            _inline_aliases(n, rb)
     for n in ast.walk(tree):
         if isinstance(n, (ast.FunctionDef, ast.AsyncFunctionDef)):
             _propagate(n)
